@@ -3,6 +3,11 @@
 // CloseAuction, BeginBlocker) and prints one self-contained case per call: observed pre-state
 // (auction store, raw by-time index, balances of all parties), the call, its result class and the
 // observed post-state.  The module's own three invariants are evaluated on every post-state.
+//
+// Parameters are NOT fixed per sequence: governance events (case c06.gov) change durations and increments
+// while auctions are open, through kapp.SetParams (keeper route and x/params subspace route alternate).  The
+// parameters written on every case line are read back from the x/params subspace (kapp.ReadParams) right
+// before the call — the parameters IN FORCE — never remembered by the harness and never read via the keeper.
 package main
 
 import (
@@ -259,6 +264,151 @@ func pickParams(r *c.Rng) paramSet {
 	return paramSet{d[0], d[1], d[2], sdk.MustNewDecFromStr(c.Pick(r, incs)), sdk.MustNewDecFromStr(c.Pick(r, incs)), sdk.MustNewDecFromStr(c.Pick(r, incs))}
 }
 
+// readParams: the auction parameters in force, straight from the x/params subspace (what governance wrote)
+func (w *world) readParams(ctx sdk.Context) paramSet {
+	var ap auctiontypes.Params
+	kapp.ReadParams(w.tApp, ctx, "auction", &ap)
+	return paramSet{ap.MaxAuctionDuration, ap.ForwardBidDuration, ap.ReverseBidDuration, ap.IncrementSurplus, ap.IncrementDebt, ap.IncrementCollateral}
+}
+
+func (ps paramSet) fields() []string {
+	return []string{strconv.FormatInt(int64(ps.maxDur), 10), strconv.FormatInt(int64(ps.fwdDur), 10), strconv.FormatInt(int64(ps.revDur), 10),
+		ps.incS.BigInt().String(), ps.incD.BigInt().String(), ps.incC.BigInt().String()}
+}
+
+var govIncs = []string{"0", "0.000000000000000001", "0.005", "0.05", "0.1", "0.125", "0.25", "0.333333333333333333", "0.5", "0.999999999999999999",
+	"1", "1.000000000000000001", "1.5", "2.5", "10", "1000000"}
+
+// tieInc: an increment for which x * inc is exactly k + 1/2 (RoundInt is on its half-even tie), j odd
+func tieInc(x *big.Int, j int64) (sdk.Dec, bool) {
+	if x.Sign() <= 0 {
+		return sdk.Dec{}, false
+	}
+	a := x.TrailingZeroBits()
+	if a > 17 {
+		return sdk.Dec{}, false
+	}
+	// j / 2^(a+1) with 18 decimals: j * 5^(a+1) * 10^(17-a)
+	m := new(big.Int).Exp(bi(5), bi(int64(a)+1), nil)
+	m.Mul(m, new(big.Int).Exp(bi(10), bi(17-int64(a)), nil))
+	m.Mul(m, bi(j))
+	return sdkmath.LegacyNewDecFromBigIntWithPrec(m, 18), true
+}
+
+// govChange: a parameter change a governance / committee proposal could enact while auctions are open.
+// Returns the new set and a label of what was changed (coverage accounting).
+func govChange(r *c.Rng, ps paramSet, pre obs, now time.Time) (paramSet, string) {
+	var open, bidOn []auc
+	for _, a := range pre.aucs {
+		open = append(open, a)
+		if a.has {
+			bidOn = append(bidOn, a)
+		}
+	}
+	n := ps
+	durShort := func(d time.Duration) time.Duration {
+		switch r.Intn(4) {
+		case 0:
+			return 0
+		case 1:
+			return 1
+		case 2:
+			return d / 2
+		default:
+			return time.Duration(r.Range(0, int64(d)))
+		}
+	}
+	durLong := func(d time.Duration) time.Duration {
+		switch r.Intn(3) {
+		case 0:
+			return d + 1
+		case 1:
+			return 2*d + time.Second
+		default:
+			return d + time.Duration(r.Range(1, int64(10*time.Second)))
+		}
+	}
+	what := ""
+	switch r.Intn(12) {
+	case 0:
+		n.fwdDur, what = durShort(ps.fwdDur), "fwd-short"
+	case 1:
+		n.fwdDur, what = durLong(ps.fwdDur), "fwd-long"
+	case 2:
+		n.revDur, what = durShort(ps.revDur), "rev-short"
+	case 3:
+		n.revDur, what = durLong(ps.revDur), "rev-long"
+	case 4, 5: // max auction duration shortened: below the remaining life / the age of a running auction
+		what = "max-short"
+		n.maxDur = durShort(ps.maxDur)
+		if len(bidOn) > 0 {
+			a := bidOn[r.Intn(len(bidOn))]
+			switch r.Intn(4) {
+			case 0: // now + maxDur lands strictly before the auction's own max end
+				if left := a.maxEnd.Sub(now); left > 1 {
+					n.maxDur, what = time.Duration(r.Range(0, int64(left)-1)), "max-below-left"
+				}
+			case 1: // ... strictly before its current end
+				if left := a.end.Sub(now); left > 1 {
+					n.maxDur, what = time.Duration(r.Range(0, int64(left)-1)), "max-below-end"
+				}
+			case 2: // exactly the remaining life
+				if left := a.maxEnd.Sub(now); left >= 0 {
+					n.maxDur, what = left, "max-eq-left"
+				}
+			}
+		}
+	case 6:
+		n.maxDur, what = durLong(ps.maxDur), "max-long"
+	case 7, 8, 9: // one increment, to a table value or to a value that puts a standing amount on a rounding tie
+		which := r.Intn(3)
+		v := sdk.MustNewDecFromStr(c.Pick(r, govIncs))
+		what = "inc-table"
+		if len(open) > 0 && r.Chance(45) {
+			a := open[r.Intn(len(open))]
+			x := a.bid
+			which = 0
+			if a.kind == "d" {
+				x, which = a.lot, 1
+			} else if a.kind == "c" {
+				which = 2
+				if a.bid.Cmp(a.maxBid) == 0 {
+					x = a.lot
+				}
+			}
+			if t, ok := tieInc(x, []int64{1, 1, 3, 5}[r.Intn(4)]); ok {
+				v, what = t, "inc-tie"
+			}
+		}
+		switch which {
+		case 0:
+			n.incS = v
+		case 1:
+			n.incD = v
+		default:
+			n.incC = v
+		}
+		what += []string{"-s", "-d", "-c"}[which]
+	case 10: // all three increments at once
+		n.incS, n.incD, n.incC = sdk.MustNewDecFromStr(c.Pick(r, govIncs)), sdk.MustNewDecFromStr(c.Pick(r, govIncs)), sdk.MustNewDecFromStr(c.Pick(r, govIncs))
+		what = "inc-all"
+	default:
+		n, what = pickParams(r), "all"
+	}
+	// Params.Validate (genesis, keeper-side callers) wants bid durations <= max duration; a per-key parameter
+	// change proposal is only checked by the per-key validators, so both shapes occur on a live chain
+	if (n.fwdDur > n.maxDur || n.revDur > n.maxDur) && r.Chance(60) {
+		if n.fwdDur > n.maxDur {
+			n.fwdDur = n.maxDur
+		}
+		if n.revDur > n.maxDur {
+			n.revDur = n.maxDur
+		}
+		what += "+clamped"
+	}
+	return n, what
+}
+
 func smallAmt(r *c.Rng) *big.Int {
 	switch r.Intn(8) {
 	case 0:
@@ -318,13 +468,49 @@ func (w *world) seq(out *c.Out, seq int, r *c.Rng) {
 	now := kapp.GenTime.Add(time.Duration(r.Range(0, 5)) * time.Second)
 	ctx = ctx.WithBlockTime(now)
 	DF := tns(auctiontypes.DistantFuture)
-	envF := []string{strconv.Itoa(pM), strconv.Itoa(nilIdx), bools(w.blocked), bools(w.minter), bools(w.burner), DF.String(),
-		strconv.FormatInt(int64(ps.maxDur), 10), strconv.FormatInt(int64(ps.fwdDur), 10), strconv.FormatInt(int64(ps.revDur), 10),
-		ps.incS.BigInt().String(), ps.incD.BigInt().String(), ps.incC.BigInt().String()}
+	envS := []string{strconv.Itoa(pM), strconv.Itoa(nilIdx), bools(w.blocked), bools(w.minter), bools(w.burner), DF.String()}
+	// how often governance acts in this history: never (the fixed-parameter histories of before), rarely, often
+	govRate := []int{0, 4, 10, 10, 25}[r.Intn(5)]
+	afterGov := 0 // calls left that are directed at the open auctions right after a parameter change
 
 	nops := c.Budget(60, 150)
 	for i := 0; i < nops; i++ {
 		pre := w.observe(ctx)
+		// ---- governance: parameters change while auctions are open
+		if len(pre.aucs) > 0 && r.Chance(govRate) {
+			old := w.readParams(ctx)
+			nps, what := govChange(r, old, pre, now)
+			ap := auctiontypes.NewParams(nps.maxDur, nps.fwdDur, nps.revDur, nps.incS, nps.incD, nps.incC)
+			kapp.SetParams(w.tApp, ctx, "auction", &ap, func() { k.SetParams(ctx, ap) })
+			post := w.observe(ctx)
+			inForce := w.readParams(ctx)
+			nb := 0
+			for _, a := range pre.aucs {
+				if a.has {
+					nb++
+				}
+			}
+			if nb > 2 {
+				nb = 2
+			}
+			fields := append([]string{}, envS...)
+			fields = append(fields, old.fields()...)
+			fields = append(fields, inForce.fields()...)
+			fields = append(fields, tns(now).String())
+			fields = append(fields, pre.fields()...)
+			fields = append(fields, "=>")
+			fields = append(fields, post.fields()...)
+			out.Case(fmt.Sprintf("gov|%s|withbids=%d", what, nb), "c06.gov", fields...)
+			out.Note("gov:" + strings.SplitN(what, "+", 2)[0])
+			if strings.Join(inForce.fields(), ",") != strings.Join(nps.fields(), ",") {
+				out.Note("gov:store-differs-from-written") // not a property of C06; the cases carry what the store holds
+			}
+			pre = post
+			afterGov = 2 + r.Intn(3)
+		}
+		// the parameters in force for this call: read from the store, not remembered
+		ps = w.readParams(ctx)
+		envF := append(append([]string{}, envS...), ps.fields()...)
 		// ---- block time: stays, or moves to a boundary of some open auction
 		moved := false
 		if r.Chance(35) {
@@ -358,6 +544,14 @@ func (w *world) seq(out *c.Out, seq int, r *c.Rng) {
 		roll := r.Intn(100)
 		if moved && r.Chance(30) {
 			roll = 99 // a new block usually starts with the begin blocker
+		}
+		directed := false
+		if afterGov > 0 {
+			afterGov--
+			if roll < 18 && len(pre.aucs) > 0 { // further bids and closes under the new parameters rather than new auctions
+				roll = 18 + r.Intn(82)
+			}
+			directed = true
 		}
 		switch {
 		case roll < 18 && len(pre.aucs) < 6 || len(pre.aucs) == 0: // ---- start an auction
@@ -483,7 +677,11 @@ func (w *world) seq(out *c.Out, seq int, r *c.Rng) {
 				}
 				min := new(big.Int).Add(a.bid, incOf(a.bid, inc))
 				have := pre.bals[bidder][a.bidD]
-				switch r.Intn(12) {
+				pick := r.Intn(12)
+				if directed && r.Chance(60) {
+					pick = r.Intn(4) // min-1 / min / min+1 under the increment in force
+				}
+				switch pick {
 				case 0:
 					amt, cls = new(big.Int).Sub(min, bi(1)), "min-1"
 				case 1, 2:
@@ -516,7 +714,11 @@ func (w *world) seq(out *c.Out, seq int, r *c.Rng) {
 					inc = ps.incC
 				}
 				max := new(big.Int).Sub(a.lot, incOf(a.lot, inc))
-				switch r.Intn(12) {
+				pick := r.Intn(12)
+				if directed && r.Chance(60) {
+					pick = r.Intn(4) // max+1 / max / max-1 under the increment in force
+				}
+				switch pick {
 				case 0:
 					amt, cls = new(big.Int).Add(max, bi(1)), "max+1"
 				case 1, 2:
